@@ -262,6 +262,13 @@ static void F(reg_, all)(void)
 
 #include "hashtable.h"
 
+/* a sanitizer report must not lose the observations printed so far (stdout is a pipe, fully buffered) */
+static void flush_on_death(void)
+{
+	fflush(stdout);
+}
+void __sanitizer_set_death_callback(void (*callback)(void));
+
 /* alloc.c reports failures through log_err */
 void log_err(const char *format, ...)
 {
@@ -389,6 +396,7 @@ int main(void)
 	int type = -1, order = 0;
 	void *tab = NULL;
 	struct htops *o = NULL;
+	__sanitizer_set_death_callback(flush_on_death);
 	reg_all_o2(); reg_all_o3(); reg_all_o4(); reg_all_o5(); reg_all_o6(); reg_all_o7();
 	reg_all_o8(); reg_all_o9(); reg_all_o10(); reg_all_o11(); reg_all_o12(); reg_all_o13();
 
